@@ -53,7 +53,8 @@ pub struct Case {
     pub recs: Vec<WRec>,
     pub wrap: usize,
     /// the io::Write the records are written to: (0, _) = Vec, (1, n) = accepts at most n bytes per write(),
-    /// (2, n) = a write() never crosses a block boundary of n bytes
+    /// (2, n) = a write() never crosses a block boundary of n bytes, (3, n) = every (n % 5 + 2)-th write() call is
+    /// interrupted (ErrorKind::Interrupted) and has to be retried
     #[serde(default)]
     pub sink: (u8, u16),
 }
@@ -64,18 +65,26 @@ pub struct Sink {
     kind: u8,
     n: usize,
     pub short_writes: usize,
+    calls: usize,
+    pub interrupted: usize,
 }
 
 impl Sink {
     pub fn new(kind: (u8, u16)) -> Sink {
-        Sink { data: Vec::new(), kind: kind.0 % 3, n: (kind.1 as usize).max(1), short_writes: 0 }
+        Sink { data: Vec::new(), kind: kind.0 % 4, n: (kind.1 as usize).max(1), short_writes: 0, calls: 0, interrupted: 0 }
     }
 }
 
 impl std::io::Write for Sink {
     fn write(&mut self, buf: &[u8]) -> std::io::Result<usize> {
+        self.calls += 1;
+        if self.kind == 3 && self.calls % (self.n % 5 + 2) == 1 {
+            // a signal arrived: the caller has to retry (as write_all does)
+            self.interrupted += 1;
+            return Err(std::io::Error::new(std::io::ErrorKind::Interrupted, "verif: interrupted write"));
+        }
         let k = match self.kind {
-            0 => buf.len(),
+            0 | 3 => buf.len(),
             1 => buf.len().min(self.n),
             _ => buf.len().min(self.n - self.data.len() % self.n),
         };
@@ -207,6 +216,9 @@ pub fn check_case(c: &Case, ctx: &mut Ctx) -> CheckResult {
     }
     if sink.short_writes > 0 {
         ctx.class("writer accepted only part of a buffer (short writes)");
+    }
+    if sink.interrupted > 0 {
+        ctx.class("writer was interrupted and retried");
     }
     if c.recs.iter().any(|r| r.seq.len() > 8192) {
         ctx.class("sequence longer than 8 KiB");
@@ -377,10 +389,10 @@ pub fn wrec(wrap_hint: usize) -> BoxedStrategy<WRec> {
 impl Prop for FastaWrite {
     type Case = Case;
     fn strategy(&self, _tier: Tier) -> BoxedStrategy<Case> {
-        let sink = prop_oneof![3 => Just((0u8, 0u16)), 2 => (Just(1u8), prop_oneof![1u16..8, 8u16..200]), 1 => (Just(2u8), prop_oneof![1u16..8, 8u16..200, Just(4096u16)])];
+        let sink = prop_oneof![3 => Just((0u8, 0u16)), 2 => (Just(1u8), prop_oneof![1u16..8, 8u16..200]), 1 => (Just(2u8), prop_oneof![1u16..8, 8u16..200, Just(4096u16)]), 1 => (Just(3u8), 0u16..5)];
         boxed(
-            (prop_oneof![6 => 1usize..=70, 1 => 70usize..400])
-                .prop_flat_map(|wrap| (vec(wrec(wrap), 1..6), Just(wrap)))
+            (prop_oneof![24 => 1usize..=70, 4 => 70usize..400, 1 => prop::sample::select(&[usize::MAX, usize::MAX - 1, usize::MAX / 2 + 1, 1usize << 40, u32::MAX as usize, u32::MAX as usize + 1, 65536usize][..])])
+                .prop_flat_map(|wrap| (vec(wrec(wrap.min(400)), 1..6), Just(wrap)))
                 .prop_flat_map(move |(recs, wrap)| (Just(recs), Just(wrap), sink.clone()))
                 .prop_map(|(recs, wrap, sink)| Case { recs, wrap, sink }),
         )
@@ -393,7 +405,7 @@ impl Prop for FastaWrite {
     }
 }
 
-pub const RULE: &str = "cases = 1..5 records (id without space/LF, optional description, header not ending in CR, may contain '>', CR inside, non-UTF-8; sequence without LF/CR/'>' of length 0..200 with lengths k*wrap+{-1,0,1} over-weighted; chunking with cut points and inserted empty chunks; one of 11 writer entry points incl. RefRecord methods on a parsed multi-line rendering) x wrap 1..=70 (rarely up to 400), written back to back into a Vec or into a writer that accepts only part of each buffer (at most n bytes per write(), or never across an n-byte block boundary); sequences up to 20 kB with low weight; with probability 1/4 a record's write is preceded by the same call on a writer that fails with an I/O error after k bytes (the result is ignored, as a caller that carries on would). Oracle: parse(output) = the list of (header, sequence) and id/desc parts; on the raw bytes: wrapped lines <= wrap and all but the last == wrap, unwrapped output has one sequence line; write_seq = write_seq_iter(chunks); for non-empty sequences write_wrap_seq = write_wrap_seq_iter(chunks) byte for byte. Exhaustive sub-check: every sequence length 0..=8 x wrap 1..=9 x every set of cut points x {no, leading, trailing} empty chunk. Non-trivial = a sequence longer than wrap or >= 2 chunks. Distinct = hash(case).";
+pub const RULE: &str = "cases = 1..5 records (id without space/LF, optional description, header not ending in CR, may contain '>', CR inside, non-UTF-8; sequence without LF/CR/'>' of length 0..200 with lengths k*wrap+{-1,0,1} over-weighted; chunking with cut points and inserted empty chunks; one of 11 writer entry points incl. RefRecord methods on a parsed multi-line rendering) x wrap 1..=70 (rarely up to 400, or a 'do not wrap' width such as usize::MAX, usize::MAX / 2 + 1, 2^40, 2^32), written back to back into a Vec or into a writer that accepts only part of each buffer (at most n bytes per write(), or never across an n-byte block boundary) or that is interrupted (ErrorKind::Interrupted) every few calls; sequences up to 20 kB with low weight; with probability 1/4 a record's write is preceded by the same call on a writer that fails with an I/O error after k bytes (the result is ignored, as a caller that carries on would). Oracle: parse(output) = the list of (header, sequence) and id/desc parts; on the raw bytes: wrapped lines <= wrap and all but the last == wrap, unwrapped output has one sequence line; write_seq = write_seq_iter(chunks); for non-empty sequences write_wrap_seq = write_wrap_seq_iter(chunks) byte for byte. Exhaustive sub-check: every sequence length 0..=8 x wrap 1..=9 x every set of cut points x {no, leading, trailing} empty chunk. Non-trivial = a sequence longer than wrap or >= 2 chunks. Distinct = hash(case).";
 
 pub fn run(tier: Tier) -> i32 {
     let mut run = Run::new("C10", tier, "exploration");
